@@ -131,7 +131,7 @@ def run(ctx):
     names = gen.FAST if ctx.quick else gen.ALL
     results = []
     for i in range(72 if ctx.quick else 500):
-        name = names[i % len(names)]
+        name = gen.rotate(names, i, ctx.quick)
         spec = dunit.general_spec(rng, name, max_calls=2, metrics=rng.choice([0, 1]), sizes=(2, 3, 5), max_points=60, n_max=14,
                                   verbosity=False, steps_api=False)
         if name in ("GeneticAlgorithmOptimizer", "DifferentialEvolutionOptimizer"):
